@@ -88,6 +88,10 @@ TEXT.update({
             "fault enumeration over user-code invocations + post-unwind invariant monitors"),
 })
 
+# checks over the core machinery all carry the cross-cutting jobs (tools/plans.py: cross_jobs)
+CROSS = {pid: " + systematic two-thread schedule enumeration (wl_pair) + scripted wrap / lifecycle scenarios under the token scheduler"
+         for pid in ("C01", "C02", "C03", "C04", "C05", "C06", "C10", "C11", "C12", "C16", "C17")}
+
 NOTE = {
     "C01": "Trusted: the harness pointer type and scheduler; TOKEN mode explores sequentially consistent interleavings only; SC-only ordering weakenings are out of reach (DESIGN.md).",
 }
@@ -113,7 +117,7 @@ def main():
                 "engine": "asv",
                 "level_claimed": {"category": plans.PLANS[pid]["level"], "text": text, "design_ref": "DESIGN.md section " + ref},
                 "level_note": NOTE.get(pid, "Trusted: harness monitors (ledger, history recorder, checker), the step hooks being purely additive, and the tools named in technique. A pass means: held on the executions counted in the evidence file."),
-                "technique": tech,
+                "technique": tech + CROSS.get(pid, ""),
             })
         else:
             na.append({"property_id": pid, "reason": na_reason.get(pid, "check not built yet (build in progress; see DESIGN.md section 5)")})
